@@ -137,7 +137,11 @@ namespace
 	  for (size_t i = 0; i < t.m_children.size (); ++i)
 	    {
 	      auto tine = std::make_shared <op_tine> (*merge, i);
-	      auto op = build_exec (t.m_children[i], l, rdv_ll, tine, bn, up);
+	      // Each branch is a scope of its own.  The parser wraps
+	      // the branches of A,B in SCOPE, but not the X in X?, which
+	      // is (X,): a name bound there must not leak out.
+	      bindings scope {bn};
+	      auto op = build_exec (t.m_children[i], l, rdv_ll, tine, scope, up);
 	      merge->add_branch (op);
 	    }
 
